@@ -336,6 +336,118 @@ def r10_3(prog, rep):
             rep.ok(rid, "%s/lookup-through-tables" % g.name, g.loc(), "field and component names are resolved by the gperf lookups only")
 
 
+SEARCHERS = ("strchr", "strrchr", "strpbrk", "memchr", "strstr", "memmem", "strchrnul_")
+
+
+def r10_4(prog, rep):
+    """A pointer that was assigned the result of strchr/strpbrk/memchr/strstr is dereferenced or advanced only where it is known to be
+    non-NULL: the searched character may be missing from a malformed or truncated line, in whichever chunk it arrives."""
+    rid = "R10.4"
+    n = 0
+    for f in prog.fns_in("evical.c"):
+        if not f.cfg:
+            continue
+        cfg = f.cfg
+        defs = {}   # var -> [(b, i)] of search definitions
+        for b, i, x, line in cfg.all_elems():
+            for l, kind, nn in writes(cfg.resolve(x)):
+                rhs = nn.get("init") if kind == "decl" else (nn.get("r") if nn.get("k") == "bin" and nn["op"] == "=" else None)
+                if rhs is None:
+                    continue
+                r = strip_casts(rhs)
+                l_ = strip_casts(l)
+                if l_.get("k") == "ref" and r.get("k") == "call" and r.get("fn") in SEARCHERS:
+                    defs.setdefault(l_["n"], []).append((b, i))
+        if not defs:
+            continue
+
+        def extra_gen(x):
+            out = set()
+            for l, kind, nn in writes(cfg.resolve(x)):
+                l_ = strip_casts(l)
+                if l_.get("k") != "ref" or l_["n"] not in defs:
+                    continue
+                rhs = nn.get("init") if kind == "decl" else (nn.get("r") if nn.get("k") == "bin" and nn["op"] == "=" else None)
+                if rhs is None:
+                    continue
+                r = strip_casts(rhs)
+                if not (r.get("k") == "call" and r.get("fn") in SEARCHERS):
+                    out.add(("safe", l_["n"]))
+            return out
+        from ..flow import rel_facts, default_closure
+
+        def gen(c, truth):
+            g = rel_facts(c, truth)
+            for fx in list(g):
+                if (fx[0] == "ne" and fx[2] == "0" and fx[1] in defs) or (fx[0] == "true" and fx[1] in defs):
+                    g.add(("safe", fx[1]))
+            return g
+        from ..flow import elem_kills
+
+        def kills(x):
+            # advancing a pointer keeps it non-NULL: this instance only carries null-ness evidence
+            ks = elem_kills(x)
+            adv = set()
+            for l, kind, nn in writes(x):
+                if kind in ("incdec", "compound") and lv(l) in defs:
+                    adv.add(lv(l))
+            plain = {lv(l) for l, kind, nn in writes(x) if kind not in ("incdec", "compound")}
+            return ks - (adv - plain)
+        mf = MustFacts(cfg, gen=gen, kills=kills, extra_gen=extra_gen, closure=default_closure)
+        reach = {}
+        for v, ds in defs.items():
+            rs = set()
+            for (b, i) in ds:
+                rs |= cfg.reach_from(b) | {b}
+            reach[v] = rs
+        seen = set()
+        for b, i, x, line in cfg.all_elems():
+            if not isinstance(x, dict):
+                continue
+            uses = []
+            for nd in walk(x):
+                k = nd.get("k")
+                if k == "un" and nd["op"] == "*":
+                    e = strip_casts(nd["e"])
+                    while isinstance(e, dict) and e.get("k") == "bin" and e["op"] == "=":
+                        e = strip_casts(e["r"])     # *(v = w) dereferences w
+                    # *v, *(v + k), *v++ ...
+                    for m in walk(e):
+                        if m.get("k") == "ref" and m.get("n") in defs:
+                            uses.append((m["n"], "dereferenced"))
+                elif k == "idx":
+                    e = strip_casts(nd["b"])
+                    if e.get("k") == "ref" and e.get("n") in defs:
+                        uses.append((e["n"], "subscripted"))
+                elif k == "un" and nd["op"] in ("pre++", "post++", "pre--", "post--"):
+                    e = strip_casts(nd["e"])
+                    if e.get("k") == "ref" and e.get("n") in defs:
+                        uses.append((e["n"], "advanced"))
+                elif k == "bin" and nd["op"] in ("+=", "-="):
+                    e = strip_casts(nd["l"])
+                    if e.get("k") == "ref" and e.get("n") in defs:
+                        uses.append((e["n"], "advanced"))
+            for v, how in uses:
+                if b not in reach[v]:
+                    continue
+                # a definition in the very same element (`*(v = strchr(..))`) is its own problem; skip self
+                if (v, b, i) in seen:
+                    continue
+                seen.add((v, b, i))
+                facts = mf.at(b, i) or set()
+                # the element may be the condition operand that itself establishes the fact (x && *x): facts before it are what counts
+                n += 1
+                key = "%s/%s %s@%d" % (f.name, v, how, n)
+                if ("safe", v) in facts or ("ne", v, "0") in facts or ("true", v) in facts or ("ne", "0", v) in facts:
+                    rep.ok(rid, key, f.loc(line), "%s is known non-NULL where it is %s" % (v, how))
+                else:
+                    rep.fail(rid, key, f.loc(line),
+                             "%s holds the result of a %s() search and is %s on a path where it was not tested: a line without the searched "
+                             "character (a truncated or malformed property) makes the parser work on NULL" % (v, "/".join(sorted({cfg.elem(*d).get("fn", "search") if isinstance(cfg.elem(*d), dict) else "search" for d in defs[v]}))[:40], how))
+    if n < 5:
+        rep.broken_("rule=R10.4 expected >=5 uses of search results in the parser, found %d" % n)
+
+
 def run(prog, rep, tier, snap):
     rep.rule("R10.1", "stash discipline: bounded stores in esccpy, cursor writes, subscripts, partial-line guard", 10)
     rep.call(r10_1, prog, rep)
@@ -344,4 +456,6 @@ def run(prog, rep, tier, snap):
     rep.call(r10_2, prog, rep)
     rep.rule("R10.3", "state machine exhaustiveness", 12)
     rep.call(r10_3, prog, rep)
+    rep.rule("R10.4", "results of strchr/strpbrk/memchr are tested before they are dereferenced or advanced", 5)
+    rep.call(r10_4, prog, rep)
 READY = True
